@@ -59,10 +59,10 @@ impl MainState {
                         RplInviting341 { client: str_of(client_name_spec(old(conn_state).user_state)), nick: nickname, channel }))
                 &&& (r is Ok ==> final(outbox).log == old(outbox).log.push((ou.sender.id(), render(*msg, old(conn_state).user_state.source@))))
             }),
-            sym(*final(state)), // @prop C04
+            sym(*final(state)), // @prop C04,C05
             chans_wf(*final(state)), // @prop C04,C08
             no_empty_chan(*final(state)), // @prop C16
-            wallops_wf(*final(state)), // @prop C11,C06
+            wallops_wf(*final(state)), // @prop C11,C06,C05
             counters_wf(*final(state)), // @prop C19
             senders_distinct(*final(state)), // @prop C02,C01
             conn_ok(*final(conn_state), *final(state)), // @prop C09
